@@ -2,6 +2,7 @@
 import hashlib
 import json
 import os
+import sys
 import traceback
 
 VERIF_DIR = os.path.dirname(os.path.dirname(os.path.abspath(__file__)))
@@ -116,8 +117,10 @@ def write_replay(prop, subcheck, case, key, detail, directory=None):
     h = hashlib.blake2b((subcheck + '|' + key).encode(), digest_size=6).hexdigest()
     path = os.path.join(directory, '%s-%s-%s.json' % (prop, subcheck, h))
     with open(path, 'w', encoding='utf-8') as f:
-        json.dump({'property': prop, 'subcheck': subcheck, 'key': key, 'detail': detail,
-                   'case': case}, f, indent=1, sort_keys=True, default=str)
+        rec = {'property': prop, 'subcheck': subcheck, 'key': key, 'detail': detail, 'case': case}
+        if sys.flags.optimize:
+            rec['python_optimize'] = True       # found (and to be replayed) in an interpreter started with -O
+        json.dump(rec, f, indent=1, sort_keys=True, default=str)
     return path
 
 
